@@ -121,6 +121,31 @@ func Run(r *core.Run) {
 	keys.FixRand(0x42)
 	r.Extra["jws_under_test"] = len(items)
 
+	// the alg label of a library signer is free text (the protocol lists algorithm names and curves independently, the verifier picks
+	// the digest by the curve of the key): whatever the label, what the signer produces verifies under its key
+	for _, t := range []string{"P-256", "P-384", "P-521", "secp256k1"} {
+		for _, label := range []string{"ES256", "ES384", "ES512", "ES256K", "ES521", "alg"} {
+			t, label := t, label
+			id := "alg-label/" + t + "/" + label
+			r.Case(id, func() *core.Fail {
+				k := keys.New(t, 931)
+				compact, err := signutil.SignPayload([]byte(`{"label":"`+label+`"}`), ecsigner.New(k.EC, label, "kid-1"))
+				if err != nil {
+					return &core.Fail{Key: id, What: "SignPayload failed: " + err.Error()}
+				}
+				own := k.JWKMap()
+				det := map[string]any{"jws": compact, "jwk": own, "alg_label": label}
+				if res, err := jwsutil.VerifyJWS(compact, jwkOf(own)); err != nil || string(res.Payload) != `{"label":"`+label+`"}` {
+					return &core.Fail{Key: id, What: fmt.Sprintf("JWS made by a library signer for a %s key with the label %q does not verify under that key: %v", t, label, err), Detail: det}
+				}
+				if _, err := jwsutil.VerifyJWS(compact, jwkOf(keys.New(t, 932).JWKMap())); err == nil {
+					return &core.Fail{Key: id, What: "JWS verifies under another key of the same curve", Detail: det}
+				}
+				return nil
+			})
+			r.Observe(id)
+		}
+	}
 	// one signer, several signatures held at the same time: each JWS / signature made by the matching key over its own bytes must
 	// still verify (library and independent verifier) after the same signer has signed other payloads
 	for _, t := range keys.Types {
